@@ -1,4 +1,6 @@
 """C05 corpus: enums deriving EnumIter, plus the generator-written expected item list."""
+import noise
+
 
 PAYLOADS = ["u8", "i64", "String", "Option<u16>", "P", "Seven", "Vec<u8>", "(u8, bool)", "char", "bool"]
 
@@ -62,7 +64,8 @@ def gen_enum(rng, idx, n_enabled, placement, generics, kinds, robust=False):
         if not dis and not robust and rng.random() < 0.15:
             extra = rng.choice(['#[strum(serialize = "x%d")]' % vi, '#[strum(to_string = "t%d")]' % vi,
                                 '#[strum(message = "m")]', '#[strum(props(a = "b"))]'])
-        variants.append(dict(ident="V%d" % vi, kind=kind, tys=tys, disabled=dis, extra=extra))
+        variants.append(dict(ident="V%d" % vi, kind=kind, tys=tys, disabled=dis, extra=extra,
+                             noise=[] if robust or len(mask) > 300 else noise.variant_noise(rng, 0.25, True, extra)))
     # every type parameter must be used by some variant (rustc E0392)
     want = {"none": [], "T": ["T"], "TW": ["T"], "TK": ["T"], "TU": ["T", "U"]}[generics]
     for g in want:
@@ -92,10 +95,16 @@ GEN_DECL = {
 
 def render_variant(v):
     attrs = ""
+    lines = []
     if v["disabled"]:
-        attrs += "    #[strum(disabled)]\n"
+        lines.append("#[strum(disabled)]")
     if v["extra"]:
-        attrs += "    %s\n" % v["extra"]
+        lines.append(v["extra"])
+    # noise goes before, between and after the strum attributes
+    import random as _r
+    rr = _r.Random(v["ident"] + str(len(v.get("noise", []))))
+    for l in noise.place(rr, lines, v.get("noise", [])):
+        attrs += "    %s\n" % l
     if v["kind"] == "unit":
         body = v["ident"] + (" = %d" % v["discr"] if v.get("discr") is not None else "")
     elif v["kind"] == "tuple":
@@ -166,7 +175,7 @@ def generate(rng, seed, size):
     # a few larger enums
     # larger enums, including sizes around integer-width boundaries
     extra_sizes = [] if robust else sorted(rng.sample(range(9, 300), 3 if size != "small" else 1))
-    for n in ([] if robust else ([13, 21, 33, 64, 127, 128, 255, 256, 257] if size != "small" else [13, 33])) + extra_sizes:
+    for n in ([] if robust else ([13, 21, 33, 64, 127, 128, 255, 256, 257, 1025, 4097] if size != "small" else [13, 33])) + extra_sizes:
         enums.append(gen_enum(rng, idx, n, rng.choice(["none", "random", "alternating"] if n < 100 else ["none", "random", "middle"]), "none", ["unit", "unit", "tuple"] if n < 100 else ["unit"]))
         idx += 1
     # explicit discriminants on all-unit enums (iteration order is declaration order, whatever the values)
